@@ -176,6 +176,211 @@ def writers() -> List[str]:
     return sorted(out)
 
 
+# ---------------------------------------------------------------------------------------------- structured inventory (round 3)
+# Every way a health / visibility / countdown field of the simulator can be written, in the WHOLE tree:
+#   assign      `x.<field> = v`, `x.<field>: T = v` inside a function
+#   aug         `x.<field> -= 1` …
+#   default     class-level `<field>: T = v`
+#   call        `x.set_health_state(v)`
+#   kwarg       `SomeClass(<field>=v, …)` (a constructor / call keyword named like a field)
+#   copy        `SomeClass(**y.model_dump(…))` (copies every field, health included)
+#   setattr     any `setattr(…)` / `object.__setattr__(…)` / `x.__dict__[…] = …` (none today; any appearance is a new row)
+# Each row carries the enclosing guards (if-tests, negated early-exit tests, loops) inside its function.
+INV_FIELDS = ("health_state_actual", "health_state_visible", "health_status", "visible_health_status", "revealed_to_red",
+              "_scanned_this_step")
+
+
+def _is_field(name: str) -> bool:
+    return name in INV_FIELDS or name.endswith("_countdown")
+
+
+def _always_exits(body: List[ast.stmt]) -> bool:
+    if not body:
+        return False
+    last = body[-1]
+    if isinstance(last, (ast.Return, ast.Raise, ast.Continue, ast.Break)):
+        return True
+    if isinstance(last, ast.If):
+        return _always_exits(last.body) and _always_exits(last.orelse)
+    return False
+
+
+def _flat(s: str) -> str:
+    return " ".join(s.replace("\n", " ").split())
+
+
+def inventory() -> List[Tuple[str, str, str, str, str, str, str]]:
+    """rows (file, scope, field, kind, target, value, guard), sorted"""
+    rows: List[Tuple[str, str, str, str, str, str, str]] = []
+    for path in sorted(SRC.rglob("*.py")):
+        rel = str(path.relative_to(SRC))
+        try:
+            tree = ast.parse(path.read_text())
+        except SyntaxError as e:
+            raise ValueError(f"cannot parse {rel}: {e}")
+
+        def add(scope, field, kind, target, value, guards):
+            rows.append((rel, ".".join(scope) or "<module>", field, kind, _flat(target), _flat(value), " && ".join(guards)))
+
+        def exprs(node, scope, guards):
+            """calls / keyword writes inside one simple statement or expression (lambdas included)"""
+            for c in ast.walk(node):
+                if isinstance(c, ast.Call):
+                    fn = c.func
+                    fname = fn.attr if isinstance(fn, ast.Attribute) else (fn.id if isinstance(fn, ast.Name) else "")
+                    if fname == "set_health_state":
+                        add(scope, "health_state_actual", "call", ast.unparse(fn), ", ".join(ast.unparse(a) for a in c.args), guards)
+                    if fname in ("setattr", "__setattr__"):
+                        add(scope, "*", "setattr", ast.unparse(fn), ", ".join(ast.unparse(a) for a in c.args), guards)
+                    for kw in c.keywords:
+                        if kw.arg is not None and _is_field(kw.arg):
+                            add(scope, kw.arg, "kwarg", ast.unparse(fn), ast.unparse(kw.value), guards)
+                        if kw.arg is None and "model_dump" in ast.unparse(kw.value):
+                            add(scope, "*", "copy", ast.unparse(fn), ast.unparse(kw.value), guards)
+
+        def stmts(body, scope, guards):
+            guards = list(guards)
+            for st in body:
+                if isinstance(st, (ast.FunctionDef, ast.AsyncFunctionDef)):
+                    stmts(st.body, scope + [st.name], [])
+                    continue
+                if isinstance(st, ast.ClassDef):
+                    klass(st, scope)
+                    continue
+                if isinstance(st, ast.If):
+                    t = _flat(ast.unparse(st.test))
+                    exprs(st.test, scope, guards)
+                    stmts(st.body, scope, guards + [t])
+                    stmts(st.orelse, scope, guards + [f"not ({t})"])
+                    if _always_exits(st.body) and not _always_exits(st.orelse):
+                        guards.append(f"not ({t})")
+                    elif _always_exits(st.orelse) and st.orelse:
+                        guards.append(t)
+                    continue
+                if isinstance(st, (ast.For, ast.AsyncFor)):
+                    g = guards + [f"for {_flat(ast.unparse(st.target))} in {_flat(ast.unparse(st.iter))}"]
+                    exprs(st.iter, scope, guards)
+                    stmts(st.body, scope, g)
+                    stmts(st.orelse, scope, guards)
+                    continue
+                if isinstance(st, ast.While):
+                    exprs(st.test, scope, guards)
+                    stmts(st.body, scope, guards + [f"while {_flat(ast.unparse(st.test))}"])
+                    stmts(st.orelse, scope, guards)
+                    continue
+                if isinstance(st, (ast.With, ast.AsyncWith)):
+                    for it in st.items:
+                        exprs(it.context_expr, scope, guards)
+                    stmts(st.body, scope, guards)
+                    continue
+                if isinstance(st, ast.Try):
+                    stmts(st.body, scope, guards + ["try"])
+                    for h in st.handlers:
+                        stmts(h.body, scope, guards + ["except"])
+                    stmts(st.orelse, scope, guards)
+                    stmts(st.finalbody, scope, guards)
+                    continue
+                if isinstance(st, ast.Match):
+                    raise ValueError(f"{rel}: match statement not supported by the inventory extractor")
+                # simple statement
+                if isinstance(st, (ast.Assign, ast.AugAssign, ast.AnnAssign)):
+                    targets = st.targets if isinstance(st, ast.Assign) else [st.target]
+                    flat_targets = []
+                    for t in targets:
+                        flat_targets += list(t.elts) if isinstance(t, (ast.Tuple, ast.List)) else [t]
+                    for t in flat_targets:
+                        if isinstance(t, ast.Attribute) and _is_field(t.attr) and getattr(st, "value", None) is not None:
+                            kind = "aug" + type(st.op).__name__ if isinstance(st, ast.AugAssign) else "assign"
+                            add(scope, t.attr, kind, ast.unparse(t), ast.unparse(st.value), guards)
+                        if isinstance(t, ast.Subscript) and "__dict__" in ast.unparse(t.value):
+                            add(scope, "*", "setattr", ast.unparse(t), ast.unparse(st.value) if getattr(st, "value", None) else "", guards)
+                exprs(st, scope, guards)
+
+        def klass(cls: ast.ClassDef, scope):
+            for st in cls.body:
+                if isinstance(st, ast.AnnAssign) and isinstance(st.target, ast.Name) and _is_field(st.target.id) and st.value is not None:
+                    add(scope + [cls.name], st.target.id, "default", st.target.id, ast.unparse(st.value), [])
+                elif isinstance(st, ast.Assign) and any(isinstance(t, ast.Name) and _is_field(t.id) for t in st.targets):
+                    add(scope + [cls.name], st.targets[0].id, "default", st.targets[0].id, ast.unparse(st.value), [])
+            stmts([s for s in cls.body], scope + [cls.name], [])
+
+        stmts(tree.body, [], [])
+    return sorted(rows)
+
+
+# methods whose body writes one of the fields (directly or through another of them): every CALL SITE of one of these names in
+# the whole tree is a trigger of a writer. (start / run / install only ever turn UNUSED into GOOD resp. load the install
+# countdown; their call sites are construction-time and are not listed.)
+TRIGGER_METHODS = ("scan", "fix", "corrupt", "repair", "restore", "restore_file", "restore_folder", "restore_backup", "check_hash",
+                   "reveal_to_red", "_update_fix_status", "_scan_timestep", "_restoring_timestep", "_reveal_to_red_timestep")
+
+
+def triggers() -> List[Tuple[str, str, str, str]]:
+    """rows (file, scope, call text) for every call `<x>.<m>(…)` with m in TRIGGER_METHODS (super().m() included)."""
+    rows = []
+    for path in sorted(SRC.rglob("*.py")):
+        rel = str(path.relative_to(SRC))
+        tree = ast.parse(path.read_text())
+
+        def visit(node, scope):
+            for ch in ast.iter_child_nodes(node):
+                if isinstance(ch, (ast.FunctionDef, ast.AsyncFunctionDef, ast.ClassDef)):
+                    visit(ch, scope + [ch.name])
+                    continue
+                if isinstance(ch, ast.Call) and isinstance(ch.func, ast.Attribute) and ch.func.attr in TRIGGER_METHODS:
+                    rows.append((rel, ".".join(scope) or "<module>", _flat(ast.unparse(ch))))
+                visit(ch, scope)
+        visit(tree, [])
+    return sorted(rows)
+
+
+def tick_bodies() -> List[Tuple[str, List[str]]]:
+    """the top-level statements (docstrings dropped; compound statements by their header) of every `apply_timestep` on the path
+    from the simulation to a health item, and of the timed helpers: an edit of any of them must be re-examined against the model"""
+    wanted = [("simulator/sim_container.py", "Simulation", "apply_timestep"),
+              ("simulator/network/container.py", "Network", "apply_timestep"),
+              (SOFTWARE, "Software", "apply_timestep"), (SOFTWARE, "Software", "_update_fix_status"),
+              (SERVICE, "Service", "apply_timestep"), (APPLICATION, "Application", "apply_timestep"),
+              ("simulator/file_system/file_system.py", "FileSystem", "apply_timestep"),
+              (FOLDER, "Folder", "apply_timestep"), (FILE, "File", "apply_timestep")]
+    out = []
+    for rel, cls, meth in wanted:
+        fn = find_method(class_def(parse(rel), cls), meth)
+        body = [st for st in fn.body if not (isinstance(st, ast.Expr) and isinstance(st.value, ast.Constant) and isinstance(st.value.value, str))]
+        out.append((f"{cls}.{meth}", [_flat(ast.unparse(st)) for st in body]))
+    return out
+
+
+def tick_overrides_conditional() -> List[str]:
+    """`apply_timestep` overrides (whole simulator tree) in which `super().apply_timestep(…)` is NOT reached on every path:
+    the call must stand in a top-level statement of the function, and no statement before it may contain a return / raise.
+    (An early `return` in front of the super call freezes the fix / install countdown in exactly the states it tests.)"""
+    bad = []
+    for path in sorted((SRC / "simulator").rglob("*.py")):
+        rel = str(path.relative_to(SRC))
+        tree = ast.parse(path.read_text())
+        for cls in [n for n in ast.walk(tree) if isinstance(n, ast.ClassDef)]:
+            for fn in cls.body:
+                if not (isinstance(fn, ast.FunctionDef) and fn.name == "apply_timestep"):
+                    continue
+                if not cls.bases or all(ast.unparse(b) in ("ABC", "BaseModel", "object") for b in cls.bases):
+                    continue
+                idx = None
+                for i, st in enumerate(fn.body):
+                    if isinstance(st, (ast.Expr, ast.Return)) and st.value is not None and isinstance(st.value, ast.Call) \
+                            and ast.unparse(st.value.func) == "super().apply_timestep":
+                        idx = i
+                        break
+                if idx is None:
+                    bad.append(f"{rel}:{cls.name}:super-call-not-top-level")
+                    continue
+                for st in fn.body[:idx]:
+                    if any(isinstance(x, (ast.Return, ast.Raise)) for x in ast.walk(st)):
+                        bad.append(f"{rel}:{cls.name}:exit-before-super")
+                        break
+    return sorted(bad)
+
+
 def tick_overrides() -> List[str]:
     """Every `apply_timestep` defined in a class under simulator/system, with whether it reaches `super().apply_timestep`.
     (An override that does not would freeze the fix/install countdowns of that class: F-C14 data-manipulation-bot.)"""
@@ -335,5 +540,35 @@ def tickOverridesWithoutSuper : List String := {llist([lstr(x) for x in tick_ove
 /-- every writer of a health attribute under src/primaite -/
 def writers : List String := [
   {(",{}  ".format(chr(10))).join(lstr(w) for w in writers())}]
+/-- `apply_timestep` overrides in which `super().apply_timestep(…)` is not reached on every path (early exit in front of it,
+or the call nested in a compound statement) -/
+def tickOverridesConditional : List String := {llist([lstr(x) for x in tick_overrides_conditional()])}
+/-- top-level statements of every `apply_timestep` between the simulation and a health item, and of `_update_fix_status` -/
+def tickBodies : List (String × List String) := [
+  {(",{}  ".format(chr(10))).join("(" + lstr(k) + ", " + llist([lstr(x) for x in v]) + ")" for k, v in tick_bodies())}]
+/-- one way a health / visibility / countdown field is written somewhere under src/primaite:
+kind = assign | aug<Op> | default (class level) | call (set_health_state) | kwarg | copy (model_dump into a constructor) | setattr;
+guard = the enclosing tests inside the function (negated early-exit tests included), joined by && -/
+structure W where
+  file : String
+  scope : String
+  field : String
+  kind : String
+  target : String
+  value : String
+  guard : String
+deriving DecidableEq, Repr
+/-- the complete inventory, sorted -/
+def inventory : List W := [
+  {(",{}  ".format(chr(10))).join("⟨" + ", ".join(lstr(c) for c in r) + "⟩" for r in inventory())}]
+/-- a call site of one of the methods that write those fields -/
+structure T where
+  file : String
+  scope : String
+  call : String
+deriving DecidableEq, Repr
+def triggerMethods : List String := {llist([lstr(x) for x in TRIGGER_METHODS])}
+def triggers : List T := [
+  {(",{}  ".format(chr(10))).join("⟨" + ", ".join(lstr(c) for c in r) + "⟩" for r in triggers())}]
 end Primaite.Gen.Health
 """
